@@ -134,8 +134,10 @@ def configured_auth(cfg):
     if a == 'false':
         return False
     def check(payload):
-        return isinstance(payload, dict) and \
-            payload.get('username') == 'admin' and \
+        # the common idiom: a falsy non-bool (None, {}) for "no"
+        if not isinstance(payload, dict):
+            return None
+        return payload and payload.get('username') == 'admin' and \
             payload.get('password') == 'secret'
     if a == 'pred':
         return check
